@@ -163,6 +163,33 @@ def f_batchdot(case):
     return {'nt': nt and n1 * n2 > 1, 'labels': ['terms=%d' % min(16, n1 * n2)]}
 
 
+def f_big_product(case):
+    """products of long operand lists (up to 400 x 400 terms, asymmetric shapes): every term against the pairwise reference product."""
+    be, N, n1, n2 = case['be'], case['N'], case['n1'], case['n2']
+    Bk = B.backend(be)
+    rs = np.random.RandomState(case['seed'])
+    L1 = rs.randint(0, 4, size=(n1, N)); K1 = rs.randint(0, 4, size=n1); c1 = rs.randint(-4, 5, size=n1) + 1j * rs.randint(-4, 5, size=n1)
+    L2 = rs.randint(0, 4, size=(n2, N)); K2 = rs.randint(0, 4, size=n2); c2 = rs.randint(-4, 5, size=n2) + 1j * rs.randint(-4, 5, size=n2)
+    R = Bk.poly(L1, K1, c1) @ Bk.poly(L2, K2, c2)
+    rl, rk = Bk.read_list(R)
+    rc = Bk.num(R.cs)
+    check(rl.shape[0] == n1 * n2 and rc.shape == (n1 * n2,), 'term count %d expected %d' % (rl.shape[0], n1 * n2), 'batch-shape')
+    el, ek = ref.pmul(np.repeat(L1, n2, axis=0), np.repeat(K1, n2), np.tile(L2, (n1, 1)), np.tile(K2, n1))
+    ec = np.repeat(c1, n2) * np.tile(c2, n1)
+    bad = np.nonzero((rl != el).any(-1) | (rk % 4 != ek % 4))[0]
+    if len(bad):
+        j = int(bad[0])
+        raise Mismatch('%d x %d product on %d qubits: term (%d,%d) is %s expected %s (%d of %d terms wrong)' % (
+            n1, n2, N, j // n2, j % n2, ref.show(rl[j], rk[j]), ref.show(el[j], ek[j]), len(bad), n1 * n2), 'big-term')
+    check(np.allclose(rc, ec, atol=1e-4), '%d x %d product: coefficients differ (max %g)' % (n1, n2, np.abs(rc - ec).max()), 'big-coef')
+    return {'nt': n1 * n2 > 1024, 'sub_evals': n1 * n2, 'labels': ['pairs>1024' if n1 * n2 > 1024 else 'pairs<=1024', 'left-longer' if n1 > n2 else ('right-longer' if n2 > n1 else 'square')]}
+
+
+def st_big_product(be):
+    sizes = [1, 2, 3, 20, 33, 64, 65, 129, 400]
+    return st.fixed_dictionaries({'be': st.just(be), 'N': st.sampled_from([1, 2, 5, 12, 33]), 'n1': st.sampled_from(sizes), 'n2': st.sampled_from(sizes), 'seed': st.integers(0, 10 ** 6)})
+
+
 def st_two_polys(be):
     return st.integers(1, 4).flatmap(lambda N: st.fixed_dictionaries(
         {'be': st.just(be), 'N': st.just(N), 'p1': gen.st_poly(N, 1, 4), 'p2': gen.st_poly(N, 1, 4)}))
@@ -276,5 +303,7 @@ FACETS.append(Facet('torch/operand-forms', f_forms, strategy=lambda t: st_forms(
 
 
 from checks import large as _large
+FACETS.append(Facet('np/big-products', f_big_product, strategy=lambda t: st_big_product('np'), examples={'quick': 120, 'thorough': 3000}, shards={'quick': 1, 'thorough': 4}))
+FACETS.append(Facet('torch/big-products', f_big_product, strategy=lambda t: st_big_product('torch'), examples={'quick': 120, 'thorough': 3000}, shards={'quick': 1, 'thorough': 4}, backend='torch'))
 FACETS.append(Facet('np/large-N', _large.f_algebra_large, strategy=lambda t: _large.st_algebra('np', ['product']), examples={'quick': 60, 'thorough': 3000}))
 FACETS.append(Facet('torch/large-N', _large.f_algebra_large, strategy=lambda t: _large.st_algebra('torch', ['product']), examples={'quick': 30, 'thorough': 1000}, backend='torch'))
